@@ -356,13 +356,16 @@ def stdMonitor (r : Report) (s : Section) (l : Line) (fs : Fields) (j : J) (key 
   else if ¬ (oU.startsWith "ok:" ∧ oS.startsWith "ok:") then r.addCover "std-not-both-accept"
   else if oU = oS then r.addCover "std-agree"
   else
+    -- the class of a difference is `stdClass` (Spec.lean), the very predicate of `agrees_with_encoding_json_total`:
+    -- outside its classes only nil-vs-empty maps may differ; anything else is class=value (a violation of the theorem's
+    -- conclusion on the real code; float32-double-rounding names the defect repaired by 71c4c8c should it come back)
     let cls :=
-      if ¬ noNull j then "null"
-      else if ¬ noCaseCollision j ∨ ¬ keysExact (.struct fs) j then "case-fold"
-      else if tyHasDotKey (.struct fs) then "dotted-key"
-      else if normNil oU = normNil oS then "nil-vs-empty-map"
-      else if ¬ f32StableDoc j then "float32-double-rounding"
-      else "value"
+      match stdClass fs j with
+      | some c => c.name
+      | none =>
+        if normNil oU = normNil oS then "nil-vs-empty-map"
+        else if ¬ f32StableDoc j then "float32-double-rounding"
+        else "value"
     (r.addCover ("std-differ-" ++ cls)).violation s.idx l.idx
       s!"std-disagree class={cls} at={at_} go-zero=[{oU}] encoding/json=[{oS}] doc=[{printTree j}]"
 
